@@ -17,7 +17,7 @@ ASSUMPTIONS = [
 ]
 STUBS = ["vf.h5stub (h5py.File contract model)"]
 BOUNDS = {"quick": dict(taxa=3, variants=3, traits=2, writes_per_location="<=2", classes=17), "thorough": dict(taxa=3, variants=3, traits=2, writes_per_location="<=3", classes=22)}
-OUTSIDE = ["CSV text (float formatting / parsing is pandas' C code)", "VCF text parsing itself (cyvcf2 is a compiled extension; modelled by its record interface, real files on validated paths)", "file names given as str/Path (needs a real file system; exercised only in replays)",
+OUTSIDE = ["CSV number formatting / parsing (pandas' C code; the file is modelled as reproducing header and cells, real files on validated paths); CSV round trips other than the genetic maps'", "VCF text parsing itself (cyvcf2 is a compiled extension; modelled by its record interface, real files on validated paths)", "file names given as str/Path (needs a real file system; exercised only in replays)",
            "data-frame round trips other than those listed in the obligations"]
 
 MODS = ["pybrops.core.util.h5py", "pybrops.core.error.error_type_h5py", "pybrops.core.error.error_value_h5py", "pybrops.core.mat.DenseMatrix", "pybrops.core.mat.DenseTaxaMatrix",
@@ -441,7 +441,7 @@ class Frames(Harness):
     tol = 1e-9
 
     def modules(self):
-        return MODS + ["pybrops.popgen.gmap.StandardGeneticMap", "pybrops.core.error.error_type_pandas", "pybrops.core.error.error_value_pandas"]
+        return MODS + ["pybrops.popgen.gmap.StandardGeneticMap", "pybrops.popgen.gmap.ExtendedGeneticMap", "pybrops.core.error.error_type_pandas", "pybrops.core.error.error_value_pandas"]
 
     def inputs(self, mk):
         return dict()
@@ -463,6 +463,48 @@ class Frames(Harness):
             df = g.to_pandas(vrnt_genpos_units=units)
             r = StandardGeneticMap.from_pandas(df, vrnt_genpos_units=units, auto_group=True, auto_build_spline=False)
             return dict(kind="snap", a=snapshot(g), b=snapshot(r), frame=[str(c) for c in df.columns])
+        if case == "gmap-csv":
+            import importlib
+            cls = self.params["cls"]
+            G = getattr(importlib.import_module("pybrops.popgen.gmap." + cls), cls)
+            m = 4
+            gp = mk.real("gp", (m,), lo=0, hi=3)
+            if not mk.concrete:
+                sym.ctx().assume(And(cell(gp, 0) < cell(gp, 1), cell(gp, 2) < cell(gp, 3)))
+            else:
+                mk.assume(gp[0] < gp[1] and gp[2] < gp[3])
+            kw = dict(vrnt_chrgrp=numpy.array([1, 1, 2, 2]), vrnt_phypos=numpy.array([10, 50, 5, 70]), vrnt_genpos=gp, vrnt_genpos_units="M", auto_group=True, auto_build_spline=False)
+            if cls == "ExtendedGeneticMap":
+                kw.update(vrnt_stop=numpy.array([11, 51, 6, 71]), vrnt_name=_obj(["m\u00e1", "m1", "m2", "m3"]), vrnt_fncode=_obj(["x", "y", "x", "z"]))
+            g = G(**kw)
+            units = self.params.get("units", "cM")
+            if mk.concrete:
+                import tempfile, os, shutil
+                d = tempfile.mkdtemp(prefix="verif-csv-")
+                fn = os.path.join(d, "map.csv")
+            else:
+                d, fn = None, "mem-map.csv"
+                import pybrops.core.error.error_value_python as EV
+            try:
+                g.to_csv(fn, vrnt_genpos_units=units)
+                extra = dict(vrnt_name_col="name", vrnt_fncode_col="fncode") if cls == "ExtendedGeneticMap" else {}
+                saved = []
+                if not mk.concrete:
+                    # file-existence checks look at the real file system: the model's store plays that role
+                    import sys as _sys
+                    for mn, mod in list(_sys.modules.items()):
+                        if mn.startswith("pybrops.") and getattr(mod, "check_file_exists", None) is not None:
+                            saved.append((mod, mod.check_file_exists))
+                            mod.check_file_exists = lambda f: None
+                try:
+                    r = G.from_csv(fn, vrnt_genpos_units=units, auto_group=True, auto_build_spline=False, **extra)
+                finally:
+                    for mod, f in saved:
+                        mod.check_file_exists = f
+            finally:
+                if d is not None:
+                    shutil.rmtree(d, ignore_errors=True)
+            return dict(kind="snap", a=snapshot(g), b=snapshot(r), frame=[])
         name = self.params["cls"]
         C = _cls(name)
         o = build(mk, name, "f", variant)
@@ -564,6 +606,10 @@ def obligations(tier):
         obs.append(Frames(case="bv-scaled", cls=name, variant="full"))
     obs.append(Frames(case="gmap", units="cM"))
     obs.append(Frames(case="gmap", units="M"))
+    # the same through to_csv / from_csv (file contract: header + cells reproduced; number formatting is outside)
+    for cls in ("StandardGeneticMap", "ExtendedGeneticMap"):
+        for units in ("cM", "M"):
+            obs.append(Frames(case="gmap-csv", cls=cls, units=units))
     names = QUICK if tier == "quick" else list(K)
     groups = [None, "g", "a/b/", "grp_é"]
     for i, name in enumerate(names):
